@@ -248,7 +248,7 @@ def make_models_for(unit_name):
 # ==========================================================================================
 # bounded twin (B): loss injected at every byte offset of sampled sessions
 
-def run_loss_session(cmds, replies, loss_at, clean, n_post, wd_before, wd_after):
+def run_loss_session(cmds, replies, loss_at, clean, n_post, wd_before, wd_after, retry=False):
     """cmds all submitted up front; stream delivered byte-exact up to loss_at, then connectionLost."""
     from twin import control_session as CS
     from twisted.python.failure import Failure
@@ -262,7 +262,7 @@ def run_loss_session(cmds, replies, loss_at, clean, n_post, wd_before, wd_after)
         ends.append(len(stream))
     viol = []
     hist = {'cmds': [[c, p] for c, p in cmds], 'replies': replies, 'loss_at': loss_at, 'clean': clean,
-            'n_post': n_post, 'wd_before': wd_before, 'wd_after': wd_after}
+            'n_post': n_post, 'wd_before': wd_before, 'wd_after': wd_after, 'retry': retry}
 
     def bad(clause, what):
         viol.append({'key': 'C03:%s' % clause, 'clause': clause, 'what': what, 'history': hist})
@@ -275,8 +275,17 @@ def run_loss_session(cmds, replies, loss_at, clean, n_post, wd_before, wd_after)
             # an observer registered before the loss submits a command from inside its notification
             d.addBoth(lambda v: reent.append(CS.Recorder(proto.queue_command('FROM-OBSERVER'))) and None)
         wds.append(CS.Recorder(d))
+    retried = []
     for c, percb in cmds:
-        recs.append(CS.Recorder(proto.queue_command(c, (lambda l: None) if percb else None)))
+        d = proto.queue_command(c, (lambda l: None) if percb else None)
+        if retry:
+            # retry logic: the caller re-submits from inside the errback of the command that was cut off
+            def again(f, _c=c):
+                if f.check(tcp.TorDisconnectError):
+                    retried.append((_c, CS.Recorder(proto.queue_command('RETRY-' + _c))))
+                return f
+            d.addErrback(again)
+        recs.append(CS.Recorder(d))
     try:
         proto.dataReceived(stream[:loss_at])
     except Exception as e:
@@ -313,6 +322,10 @@ def run_loss_session(cmds, replies, loss_at, clean, n_post, wd_before, wd_after)
     for i, r in enumerate(post):
         if len(r.results) != 1 or r.results[0][0] != 'err' or not isinstance(r.results[0][1], tcp.TorDisconnectError):
             bad('post_loss_submission_fails_once_with_disconnect_error', 'post-loss submission %d of %d: %r' % (i, n_post, r.results))
+    for c, r in retried:
+        if len(r.results) != 1 or r.results[0][0] != 'err' or not isinstance(r.results[0][1], tcp.TorDisconnectError):
+            bad('submission_from_an_errback_during_the_loss_fails_once',
+                'command re-submitted from the errback of %s (one of %d outstanding): %r' % (c, len(retried), r.results))
     for r in reent:
         if len(r.results) != 1 or r.results[0][0] != 'err' or not isinstance(r.results[0][1], tcp.TorDisconnectError):
             bad('submission_from_disconnect_observer_fails_once', 'command submitted inside a when_disconnected callback: %r' % (r.results,))
@@ -338,7 +351,7 @@ def twin(tier, seed):
             for clean in (True, False):
                 n_post = (loss_at + (1 if clean else 0)) % 4
                 wb, wa = (loss_at % 3), ((loss_at // 3) % 3)
-                v = run_loss_session(cmds, reps, loss_at, clean, n_post, wb, wa)
+                v = run_loss_session(cmds, reps, loss_at, clean, n_post, wb, wa, retry=(loss_at + s) % 2 == 1)
                 evaluations += 1
                 distinct.add((s, loss_at, clean))
                 violations.extend(v)
@@ -348,7 +361,7 @@ def twin(tier, seed):
     return {'evaluations': evaluations, 'distinct_nontrivial': len(distinct), 'samples': samples, 'violations': violations,
             'rule': 'one evaluation = one session (0..4 commands queued up front, plain / per-line-callback, replies from the C01 pool) with the '
                     'connection lost after exactly N delivered bytes, for every N, clean and unclean reason, followed by 0..3 further submissions '
-                    'and 0..2 when_disconnected requests before/after; distinct by (session, offset, reason)',
+                    'and 0..2 when_disconnected requests before/after; in every other session the errback of each command re-submits a command (retry logic); distinct by (session, offset, reason)',
             'bounds': '%d seeded sessions x every byte offset x {ConnectionDone, ConnectionLost}; post-loss submissions 0..3' % nsess}
 
 
@@ -365,7 +378,12 @@ def replay(unit, name, model):
         if st == 'RECV':
             reps[0] = (250, [('mid', 'a=1'), ('end', 'OK')])
             loss_at = 9
-        v = run_loss_session(cmds, reps, loss_at, bool(model.get('clean_close')), 2, 1, 1)
+        if 'errbacks_find_the_lost_state' in name:
+            cmds = [('CMD%d' % i, False) for i in range(max(k, 3))]
+            reps = [(250, [('end', 'OK')]) for _ in cmds]
+            v = run_loss_session(cmds, reps, 0, bool(model.get('clean_close')), 1, 0, 0, retry=True)
+        else:
+            v = run_loss_session(cmds, reps, loss_at, bool(model.get('clean_close')), 2, 1, 1)
         return {'reproduced': bool(v), 'history': v[0]['history'] if v else None, 'what': v[0]['what'] if v else '',
                 'native_violations': v[:3], 'finding': None}
     if 'queue_command_after_loss' in unit:
@@ -379,7 +397,7 @@ def replay_file(doc):
     if doc.get('kind') == 'twin':
         h = doc['violation']['history']
         reps = [(c, [tuple(p) for p in parts]) for c, parts in h['replies']]
-        v = run_loss_session([tuple(c) for c in h['cmds']], reps, h['loss_at'], h['clean'], h['n_post'], h['wd_before'], h['wd_after'])
+        v = run_loss_session([tuple(c) for c in h['cmds']], reps, h['loss_at'], h['clean'], h['n_post'], h['wd_before'], h['wd_after'], retry=h.get('retry', False))
         return {'reproduced': bool(v), 'native_violations': v[:3]}
     unit, name = doc['obligation'].split('::')
     return replay(unit, name, doc['model'])
